@@ -465,6 +465,44 @@ def mimic_checks(R: Recorder) -> None:
         bad = [k for k, v in facts.items() if not v]
         R.case({"mimic": label}, nontrivial=True)
         R.monitor("mimic", not bad, where={"kind": "metadata-lost", "deco": label.split("(")[0], "attr": bad[0] if bad else None, "stacked": True}, detail=f"{label}: {facts}; __wrapped__ is {getattr(w, '__wrapped__', None)!r}, handed in {inner_fn!r}", case={"mimic": label})
+    # the less common kinds of callables: builtins and other callables without a __dict__, callable objects, partials, bound methods
+    class SlotsCallable:
+        """slots callable doc"""
+
+        __slots__ = ()
+
+        def __call__(self, a: int) -> int:
+            return a
+
+    class PlainCallable:
+        """plain callable doc"""
+
+        def __call__(self, a: int) -> int:
+            return a
+
+        def method(self, a: int) -> int:
+            """bound method doc"""
+            return a
+
+    kinds: list[tuple[str, Any]] = [("builtin-sorted", sorted), ("builtin-divmod", divmod), ("bound-builtin", [3, 1, 2].index), ("slots-object", SlotsCallable()), ("plain-object", PlainCallable()),
+                                    ("partial", functools.partial(sync_fn, 1)), ("lambda", lambda a: a), ("bound-method", PlainCallable().method), ("class", int)]
+    sync_decos: list[tuple[str, Any]] = [("asynchronous", asynchronous), ("asynchronous()", lambda f: asynchronous()(f)), ("wrap_async", wrap_async), ("cache", cache), ("cache(limit)", lambda f: cache(limit=2)(f)),
+                                         ("retry", retry), ("retry(limit)", lambda f: retry(limit=1)(f))]
+    for (dlabel, deco), (klabel, fn) in itertools.product(sync_decos, kinds):
+        label = f"{dlabel} of {klabel}"
+        try:
+            w = deco(fn)
+            facts = {"__wrapped__": getattr(w, "__wrapped__", None) is fn}
+            if isinstance(getattr(fn, "__name__", None), str):
+                facts["__name__"] = getattr(w, "__name__", None) == fn.__name__
+            if isinstance(getattr(fn, "__doc__", None), str) and klabel not in ("slots-object", "plain-object", "partial", "class"):
+                facts["__doc__"] = getattr(w, "__doc__", None) == fn.__doc__
+        except BaseException as exc:  # noqa: BLE001
+            facts = {"decorating raised " + repr(exc): False}
+        bad = [k for k, v in facts.items() if not v]
+        R.case({"mimic": label}, nontrivial=True)
+        R.count("mimic_over_uncommon_callables")
+        R.monitor("mimic", not bad, where={"kind": "metadata-lost", "deco": dlabel.split("(")[0], "attr": bad[0] if bad else None, "callable": klabel}, detail=f"{label}: {facts}", case={"mimic": label})
     # bound methods (descriptor path)
     for label, deco, is_async in (("asynchronous-method", asynchronous, False), ("cache-method-sync", cache, False), ("cache-method-async", cache, True), ("cache(limit)-method", lambda f: cache(limit=3)(f), False)):
         if is_async:
